@@ -6,6 +6,9 @@ Require Import ZifyBool.
 Local Open Scope Z_scope.
 
 (* ---------- the non-unicode build (-DRDSPARSER_DISABLE_UNICODE) ---------- *)
+Lemma app_if (f : Z -> Z) (c : bool) a b : f (if c then a else b) = if c then f a else f b.
+Proof. destruct c; reflexivity. Qed.
+
 Theorem mid_update_single_n : forall conv,
   (forall x, 32 <= x < 127 -> m_string_convert_n x = conv x) ->
   (forall x, 127 <= x < 256 -> m_string_convert_n (to_u8 32) = conv x) ->
@@ -13,6 +16,7 @@ Theorem mid_update_single_n : forall conv,
 Proof.
   intros conv Hlo Hhi t inp ei ed pos prog Hi He Hd Hp.
   unfold m_update_single_n, update_single. cbv zeta.
+  rewrite ?(app_if m_string_convert_n).
   rewrite (leaf_calc_error ei ed He Hd).
   destruct (nth_error t pos) as [c|] eqn:En; [|apply nth_error_None in En; lia].
   rewrite Nat2Z.id. destruct (nth_contents t pos c En) as [-> ->].
